@@ -458,8 +458,9 @@ def reaction_sweep(res: Result, counter: list[int]) -> dict[str, Any]:
         cl.subscribe_home_assistant_states(lambda a, b: None, lambda a, b: None)
         cl.subscribe_bluetooth_le_advertisements(lambda m: None)
         cl.subscribe_bluetooth_connections_free(lambda a, b: None)
-        cl.subscribe_voice_assistant(handle_start=h_start, handle_stop=h_stop, handle_audio=h_audio, handle_announcement_finished=h_ann)
+        unsub_va = cl.subscribe_voice_assistant(handle_start=h_start, handle_stop=h_stop, handle_audio=h_audio, handle_announcement_finished=h_ann)
         w.drain()
+        w.unsub_va = unsub_va  # type: ignore[attr-defined]
         return w, gates
 
     for noise in (False, True):
@@ -497,6 +498,29 @@ def reaction_sweep(res: Result, counter: list[int]) -> dict[str, Any]:
                             res.add(f"reaction:{name}:unknown{t}", f"after receiving {name} twice ({start_mode} start handler) the client wrote type {t}, which api.proto does not define")
                         elif protoparse.source_of(pf, nm) == "SOURCE_SERVER":
                             res.add(f"reaction:{name}:{nm}", f"after receiving {name} twice ({start_mode} start handler) the client wrote {nm}, which api.proto marks server-originated")
+                # the application unsubscribes from the voice assistant while a start is still being handled: whatever the client writes
+                # then (at once or a few loop turns later, from task callbacks) is still client-originated
+                if w.sock is None or w.sock.closed:
+                    w.close()
+                    w, gates = session(noise, start_mode)
+                before = len(w.sent_frames())
+                m = pbgen.populate(env.pb().VoiceAssistantRequest(), 3)
+                m.start = True
+                w.io_chunk(w.sock, w.dframe(m))
+                w.drain()
+                try:
+                    w.unsub_va()  # type: ignore[attr-defined]
+                except Exception as e:  # noqa: BLE001
+                    res.add(f"reaction:voice-unsubscribe:raises", f"unsubscribing from the voice assistant ({start_mode} start handler) raised {type(e).__name__}: {e}")
+                w.drain()
+                w.run_timers(w.loop.time() + 1.0)
+                n += 1
+                counter[0] += 1
+                for t, _ in w.sent_frames()[before:]:
+                    nm = ids.get(t)
+                    if nm is None or protoparse.source_of(pf, nm) == "SOURCE_SERVER":
+                        res.add(f"reaction:voice-unsubscribe:{nm or t}", f"after a voice-assistant start ({start_mode} handler) and the application's unsubscribe the client "
+                                f"wrote {nm or t}, which api.proto {'does not define' if nm is None else 'marks server-originated'}")
                 for g in gates:
                     if not g.done():
                         g.cancel()
